@@ -163,4 +163,14 @@ theorem C04_schema_constraints_exact (j : Json.J) (c : Cons) (what : String)
     Codec.getBool j "upper" (some false) = .ok c.upper ∧ Codec.getBool j "lower" (some false) = .ok c.lower :=
   Codec.checkCons_ok j c what h
 
+/-- accepted async settings are the model's: on/off agree, and when on the threshold text is the
+    model's threshold and the timeout string is a Go duration of the model's number of 100 ms steps -/
+theorem C04_schema_async_exact (j : Option Json.J) (a : Option Async) (h : Codec.checkAsync j a = .ok ()) :
+    (a = none → ∀ jj, j = some jj → Codec.getBool jj "enable" none = .ok false) ∧
+    (∀ aa, a = some aa → ∃ jj, j = some jj ∧ Codec.getBool jj "enable" none = .ok true ∧
+      ∃ t d ns, jj.get? "threshold" = some (.num t) ∧ jj.get? "timeout" = some (.str d) ∧
+        t = toString aa.threshold ∧ Codec.parseDurationNs (String.ofList (d.map Char.ofNat)) = some ns ∧
+        (ns + 99999999) / 100000000 = aa.timeout) :=
+  Codec.checkAsync_ok j a h
+
 end Sod.Props
